@@ -34,6 +34,12 @@ def gen_count(name: str, k: int, *args, **kwargs):
         yield (name, i, tuple(args), tuple(sorted(kwargs.items())))
 
 
+def seq_count(container: str, name: str, k: int, *args, **kwargs):
+    """returns k values as a list / tuple (not a generator) regardless of how many outputs were declared"""
+    vals = [(name, i, tuple(args), tuple(sorted(kwargs.items()))) for i in range(k)]
+    return vals if container == "list" else tuple(vals)
+
+
 def gen_count_falsy(kind: str, k: int, *args, **kwargs):
     """yields k values that are None / falsy (a surplus or missing value must be noticed whatever the values are)"""
     falsy = [None, 0, "", False, (), 0.0]
@@ -51,22 +57,24 @@ def eval_graph(g: Graph):
         func, args, kwargs = n.payload
         ins = {i: out(s) for i, s in n.inputs.items()}
         res = func(*[ins[a] if isinstance(a, str) and a in ins else a for a in args], **kwargs)
-        if n.outputs != [Node.DEFAULT_OUTPUT]:
+        if len(n.outputs) > 1:
             res = list(res)
         vals[id(n)] = res
         return res
 
     def out(o):
         v = node(o.parent)
-        if o.parent.outputs == [Node.DEFAULT_OUTPUT]:
+        if len(o.parent.outputs) == 1:
+            if o.name != o.parent.outputs[0]:
+                raise KeyError(f"{o.parent.name} has no output {o.name!r}")
             return v
         return v[o.parent.outputs.index(o.name)]  # the i-th yielded value belongs to the i-th declared output
 
     res = {}
     for n in g.nodes():
         v = node(n)
-        if n.outputs == [Node.DEFAULT_OUTPUT]:
-            res[(n.name, Node.DEFAULT_OUTPUT)] = v
+        if len(n.outputs) == 1:
+            res[(n.name, n.outputs[0])] = v
         else:
             for i, o in enumerate(n.outputs):
                 res[(n.name, o)] = v[i] if i < len(v) else ("<missing>",)
@@ -210,10 +218,11 @@ def fam_multi():
         for style in ("decimal", "padded", "reversed-letters"):
             if style == "reversed-letters" and N not in (2, 3):
                 continue
-            if N == 1 and style != "decimal":
+            if N == 1 and style == "reversed-letters":
                 continue
             def build(N=N, style=style):
-                names = outnames(N, style) if N > 1 else None
+                # N == 1: the default output, or (style padded) one output with a name of its own
+                names = outnames(N, style) if N > 1 or style == "padded" else None
                 p = Node("parent", outputs=names, payload=(functools.partial(gen_term, "parent", N) if N > 1 else functools.partial(term, "parent"), ["s"], {}))
                 consumed = sorted({0, 1, N // 2, N - 1} & set(range(N)))
                 kids = []
@@ -286,6 +295,11 @@ def fam_miscount():
                     p = Node("parent", outputs=outnames(N, style), payload=(functools.partial(gen_count, "parent", N + d), [], {}))
                     return Graph([p])
                 yield f"miscount N={N} yields {N + d} {style}", {"family": "miscount", "N": N, "d": d, "style": style}, build
+            for container in ("list", "tuple"):
+                def build(N=N, d=d, container=container):
+                    p = Node("parent", outputs=outnames(N, "decimal"), payload=(functools.partial(seq_count, container, "parent", N + d), [], {}))
+                    return Graph([p])
+                yield f"miscount N={N} returns a {container} of {N + d}", {"family": "miscount", "N": N, "d": d, "style": "decimal", "container": container}, build
             for vals in ("none", "falsy"):
                 def build(N=N, d=d, vals=vals):
                     p = Node("parent", outputs=outnames(N, "decimal"), payload=(functools.partial(gen_count_falsy, vals, N + d), [], {}))
@@ -374,6 +388,8 @@ def run_case(c):
         hint = "generator yields exactly one value fewer than declared (N-1): accepted silently" if d == -1 else ("fewer values than declared" if d < 0 else "more values than declared")
         if rp.get("vals"):
             hint += f" (yielded values all {rp['vals']})"
+        if rp.get("container"):
+            hint += f" (values returned as a {rp['container']})"
         check_graph(tag, build(), rp, out, expect_fail={"parent"}, cause_hint=hint)
     return out
 
